@@ -406,7 +406,7 @@ def layer4(args):
                 viols.append(("representable", "raises", f"found run of {total} options fits but build raised",
                               dict(layer=4, total=total, repeated=repeated, where=where)))
     # number of distinct shared options around the 8-bit index limit
-    for total in (254, 255, 256, 257, 300):
+    for total in (254, 255, 256, 257, 258, 270, 271, 300, 511, 512):
         opts = distinct_options(total)
         ents = []
         for i in range(0, total, 15):
@@ -416,6 +416,18 @@ def layer4(args):
         n += 1
         outcomes[(st, total > 255)] = outcomes.get((st, total > 255), 0) + 1
         viols += v
+        # the same with the options in the second runs, and alternating between the runs
+        for where in ("run2", "alternating"):
+            ents = []
+            for j, i in enumerate(range(0, total, 15)):
+                kw = {"options_2" if (where == "run2" or j % 2) else "options_1": tuple(opts[i:i + 15])}
+                ents.append(hdr.SOMEIPSDEntry(sd_type=T.OfferService, service_id=i, instance_id=2, major_version=3, ttl=4,
+                                              minver_or_counter=5, **kw))
+            st, v = try_unrepresentable(ents, dict(disc=f"shared-options-{total}-{where}", what=f"{total} distinct shared options, "
+                                                   f"{where}", total=total, where=where))
+            n += 1
+            outcomes[(st, total > 255)] = outcomes.get((st, total > 255), 0) + 1
+            viols += v
     # numeric fields one past their width
     base = dict(sd_type=T.OfferService, service_id=1, instance_id=2, major_version=3, ttl=4, minver_or_counter=5)
     for field, val in (("service_id", 0x10000), ("instance_id", 0x10000), ("major_version", 0x100), ("ttl", 0x1000000),
